@@ -9,7 +9,8 @@ class C01(Spec):
     required_theorems = ("C01.set_inv", "C01.set_total", "C01.get_set", "C01.toList_set", "C01.toList_foldl_set",
                          "C01.read_latest", "C01.read_latest_from", "C01.iterRange_spec", "C01.iterate_all",
                          "C01.toList_strictly_sorted", "C01.size_is_count", "C01.load_stored", "C01.old_roots_stable",
-                         "C01.load_save_partial")
+                         "C01.load_save_partial", "C01.load_save_or_collision", "C01.merkle_binding", "C01.set_keeps_keyMin",
+                         "C01.hashNode_keys_content", "C01.remove_inv", "C01.get_remove")
     partial = ("C01.load_save_partial",)
     level_text = ("Lean 4 theorems, for all trees/keys/values/histories, about an executable model of node.go/tree.go: "
                   "set never panics and preserves search-tree order + stored height/size + AVL balance (set_inv, set_total); "
@@ -26,12 +27,14 @@ class C01(Spec):
                   "output byte for byte, including the SHA-256 root hash of every commit (pins rotations/split keys), height, "
                   "size, Get, index, GetByIndex, Has and every range iteration; property predicate evaluated on the "
                   "implementation against an abstract map per root.")
-    level_note = ("load_save is partial: it assumes `Consistent` (no key receives two different records) instead of deriving "
-                  "it from collision-freeness (full statement kept as LoadSaveFull); the end-to-end chain Store.Set histories -> "
+    level_note = ("load_save_or_collision is the full statement '... or Collision H' for stores without the height prefix (node key = "
+                  "hash of content; `Consistent` derived from merkle_binding + KeyMin, which set keeps); with the prefix the same root "
+                  "hash can carry other child keys, so there load_save_partial keeps its explicit `Consistent`; the end-to-end chain Store.Set histories -> "
                   "reads at every old root is carried by the differential run and the predicate. Node.remove (Tree.Remove / "
                   "DelKVPair; Store.Del is 'not support') is modelled with the newKey propagation and rebalancing and tied "
-                  "differentially (roots, removed values, reads, iteration, old roots) in a quarter of the batches — no Lean "
-                  "theorem about remove (Store.Del is 'not support'). "
+                  "differentially (roots, removed values, reads, iteration, old roots) in a quarter of the batches; remove_inv "
+                  "(never panics; order, height/size, AVL balance and KeyMin kept) and get_remove (refinement to deleting the key "
+                  "from the sorted map) are proved (Store.Del is 'not support'). "
                   "int32 height/size modelled as Nat; loading is eager in the model, lazy in Go (same on closed databases).")
     assumptions = (
         "goleveldb behaves as a key/value map with atomic batches (C06's claim)",
